@@ -11,7 +11,8 @@ import random
 import numpy as np
 import sympy
 
-from ..simkit.core import call, judge, clear_library_caches
+from ..simkit.core import KnownHit, Viol, call, judge, clear_library_caches
+from ..simkit.simalloc import SimAlloc
 from ..simkit.store import BUFFER_SIZES, LOAD_FAULTS, SAVE_FAULTS, Kind, Store
 
 PID = "C12"
@@ -155,7 +156,8 @@ class World:
                  "flip_wavefunction / flip_amplitudes / _get_ordering (lru_cache cleared or warm)",
                  "save_wavefunction / load_wavefunction / utils.convert_array_to_dict / ensure_open",
                  "numpy, sympy, json"],
-        "stub": ["disk: SimFS injected as module-global open (write/open/close errors, crash, short reads)"],
+        "stub": ["disk: SimFS injected as module-global open (write/open/close errors, crash, short reads)",
+                 "numpy as seen by the library (SimAlloc): an array-producing call made while an assignment or binding is re-validated can raise MemoryError"],
         "model": ["python list of amplitudes with predicted accept/reject per mutation"],
     }
     ASSUMPTIONS = [
@@ -168,6 +170,7 @@ class World:
         "bind-total", "bind-partial", "bind-reject", "bind-self-alias", "dicke", "dicke-invalid", "flip-cold", "flip-warm",
         "save-load-ok", "ctor-reject", "ctor-accept-sym", "grey-band", "torn-file-load", "type-invalid",
         "mask-assign", "drift-step", "value-kind-mismatch", "shared-storage-pair", "flipped-joins-pool",
+        "alloc-fault-setitem", "alloc-fault-bind",
     ]
 
     # ------------------------------------------------------------ generation
@@ -317,7 +320,11 @@ class World:
             # entries in starting at the index; whatever happens, a raised error must leave the object untouched
             val["as"] = r.choice(["list1", "list2", "list3", "arr2", "mat2"])
             val["extra"] = [[r.uniform(-1, 1), r.uniform(-1, 1)] for _ in range(2)]
-        return {"op": "setitem", "args": {"w": r.randrange(64), "idx": idx, "val": val}}
+        s = {"op": "setitem", "args": {"w": r.randrange(64), "idx": idx, "val": val}}
+        if cfg["faults"] != "none" and r.random() < 0.12:
+            # a numpy allocation requested by the library while it re-validates fails (MemoryError)
+            s["afault"] = {"kind": "alloc", "at": r.randrange(0, 4)}
+        return s
 
     def _gen_bind(self, r, cfg):
         mode = r.choices(["normalise", "raw", "partial", "violate", "extra", "empty"], [4, 2, 3, 2, 1, 1])[0]
@@ -331,8 +338,11 @@ class World:
             m[s] = r.choice([0.0, 0.1, 0.3, 1.5])
         elif mode == "extra":
             m = {"zz": 1.0, "a": 0.1}
-        return {"op": "bind", "args": {"w": r.randrange(64), "mode": mode, "map": m,
-                                       "thetas": [r.uniform(0, math.pi) for _ in range(3)]}}
+        s = {"op": "bind", "args": {"w": r.randrange(64), "mode": mode, "map": m,
+                                    "thetas": [r.uniform(0, math.pi) for _ in range(3)]}}
+        if cfg["faults"] != "none" and r.random() < 0.1:
+            s["afault"] = {"kind": "alloc", "at": r.randrange(0, 4)}
+        return s
 
     def _gen_read(self, r, cfg):
         return {"op": "read", "args": {"w": r.randrange(64)}}
@@ -405,9 +415,12 @@ class World:
                             ["str", "bytes", "pathlike"], ["str", "bytes", "pathlike", "handle"],
                             may_refuse=lambda v: v["symbolic"]))
         st["store"] = store
+        # numpy as seen by the library: array-producing entry points used while (re)validating can fail
+        st["alloc"] = SimAlloc(extra=("sum", "abs", "isclose", "copy", "array_equal", "conj", "real", "imag")).install()
         return st
 
     def cleanup(self, st):
+        st["alloc"].restore()
         st["store"].cleanup()
 
     # -- helpers
@@ -682,9 +695,41 @@ class World:
                 if not positions:
                     arg = []
         # ---- perform
-        ok, res = call(obj.__setitem__, key, arg)
+        st["alloc"].begin_call(step.get("afault"))
+        try:
+            ok, res = call(obj.__setitem__, key, arg)
+        finally:
+            alloc_fired = st["alloc"].end_call()
         ctx.called("Wavefunction.__setitem__")
         after = snap(obj)
+        if alloc_fired:
+            ctx.fault("alloc-fault")
+            ctx.probe("alloc-fault-setitem")
+            if not ok:
+                # the assignment died of a failed allocation.  Whatever it was going to be - accepted or rejected - the
+                # object must be a state the history allows: exactly as before, or (only if the assignment was a legal
+                # one) exactly as the completed assignment leaves it.  Anything else is a half-done mutation.
+                adopted = False
+                if after != before and positions is not None and newvals is not None and not type_invalid:
+                    prospective = list(m.entries)
+                    for p, v in zip(positions, newvals):
+                        prospective[p] = v
+                    if classify(prospective, m.symbolic) != "reject":
+                        saved = list(m.entries)
+                        m.entries[:] = prospective
+                        try:
+                            self._check_obj(ctx, ent, "after an assignment that died of a failed allocation")
+                            adopted = True
+                            ctx.probe("alloc-fault-assignment-kept")
+                        except (Viol, KnownHit):
+                            m.entries[:] = saved
+                if after != before and not adopted:
+                    ctx.fail("rollback", "setitem-alloc-fault",
+                             f"assignment raised {type(res).__name__} after a failed allocation and left the object changed "
+                             f"(neither the old nor a legal new state): {show(before)} -> {show(after)}")
+                ctx.log("setitem", "alloc-fault", exc=type(res).__name__, kept=adopted)
+                return
+            ctx.probe("alloc-fault-survived")
         if type_invalid and kind_mismatch:
             # the library decides what such an assignment means; the property only demands that a raised error leaves
             # the object exactly as it was, and that an accepted one leaves a valid object (checked by the invariant
@@ -762,10 +807,20 @@ class World:
             smap = {sympy.Symbol(k): v for k, v in a["map"].items()}
         before = snap(obj)
         map_before = dict(smap)
-        ok, res = call(obj.bind, smap)
+        st["alloc"].begin_call(step.get("afault"))
+        try:
+            ok, res = call(obj.bind, smap)
+        finally:
+            alloc_fired = st["alloc"].end_call()
         ctx.called("Wavefunction.bind")
         ctx.check(snap(obj) == before, "mutated-receiver", "bind", f"bind changed its receiver: {show(before)} -> {show(snap(obj))}")
         ctx.check(smap == map_before, "mutated-argument", "bind-map", "bind changed the symbol map")
+        if alloc_fired:
+            ctx.fault("alloc-fault")
+            ctx.probe("alloc-fault-bind")
+            if not ok:
+                ctx.log("bind", "alloc-fault", exc=type(res).__name__)   # reported; the receiver was checked above
+                return
         if not free:
             ctx.check(ok, "unexpected-reject", "bind-numeric", lambda: f"bind on a symbol-free wavefunction raised {res!r}")
             if res is obj:
